@@ -20,9 +20,16 @@ import re
 import sys
 import time
 
+import importlib.util
+
 import kcorr
 import vlib
-from kcorr import loguniform, operand
+from kcorr import hexf, loguniform, operand
+
+# the near-miss generator is shared with the search harness (tools/harness/c20_search.py)
+_spec = importlib.util.spec_from_file_location('c20_names', os.path.join(vlib.VERIF, 'tools', 'harness', 'c20_names.py'))
+c20_names = importlib.util.module_from_spec(_spec)
+_spec.loader.exec_module(c20_names)
 
 ID = 'C20'
 LEVEL = 'proof'
@@ -99,25 +106,9 @@ def read_names():
 
 # ------------------------------------------------------------------ near-miss names
 def near_misses(n):
-    """(kind, name) variants of a real name: prefix, suffix, case, blanks, leading zero, comma"""
-    v = []
-    if len(n) > 1:
-        v.append(('prefix', n[:-1]))
-        v.append(('drop-first', n[1:]))
-    v.append(('suffix', n + 'x'))
-    v.append(('suffix', n + n[-1:]))
-    v.append(('suffix-digit', n + '0'))
-    for c in (n.swapcase(), n.lower(), n.upper()):
-        if c != n:
-            v.append(('case', c))
-    v.append(('blank', ' ' + n))
-    v.append(('blank', n + ' '))
-    v.append(('blank', n + '\n'))
-    v.append(('blank', '\t' + n))
-    v.append(('leading-zero', '0' + n))
-    v.append(('comma', n + ','))
-    v.append(('comma', n + ',1.0'))
-    return v
+    """(kind, name) variants of a real name generated in every tier: prefix, suffix, case, blanks, leading zero,
+    comma (tools/harness/c20_names.py documents all classes)"""
+    return c20_names.fixed_variants(n)
 
 
 FULLWIDTH = {c: chr(ord(c) - 0x21 + 0xFF01) for c in map(chr, range(0x21, 0x7F))}
@@ -147,10 +138,20 @@ def build_queries(rng, tabs, tier):
         add(n, 'exact', t)
     for n, t in real:
         nm = near_misses(n)
-        if t == 'mass' and tier == 'quick':
-            # quick tier: all variants for the 371 + 118 scattering / element names, 5 of the ~15 variants
-            # (seeded choice) for each of the 3557 isotope-mass names; thorough tier: all variants of all names
-            nm = rng.sample(nm, 5)
+        # what may surround a valid name (c20_names.CLASSES): digit / blank / punctuation / non-letter tail after it,
+        # blank / punctuation / digit before it, mass number and symbol swapped or separated, a non-letter inside
+        # the symbol.  Per class: the `always` members + (quick: 1 seeded; thorough: all / 1 for isotope-mass names)
+        # members of its pool
+        if t == 'mass':
+            cls = c20_names.near_misses(n, rng, 1)[len(nm):]
+            if tier == 'quick':
+                # quick tier: 5 of the ~15 fixed variants + 2 class variants (seeded choice) for each of the 3557
+                # isotope-mass names; all fixed + always + 1 per class for the 371 + 118 scattering / element names
+                nm = rng.sample(nm, 5) + rng.sample(cls, min(2, len(cls)))
+            else:
+                nm = nm + cls
+        else:
+            nm = c20_names.near_misses(n, rng, 1 if tier == 'quick' else None)
         for kind, v in nm:
             add(v, kind, n)
     uni_src = [n for n, _ in real]
@@ -171,7 +172,9 @@ def build_queries(rng, tabs, tier):
 
 # ------------------------------------------------------------------ Coq terms
 def cstr(s):
-    b = s.encode('utf-8')
+    if not isinstance(s, str):
+        raise ValueError(f'not a string: {s!r}')
+    b = s.encode('utf-8', errors='surrogatepass')
     if all(32 <= c <= 126 for c in b):
         return '"' + s.replace('"', '""') + '"'
     return '(bytes_str [' + ';'.join(str(c) for c in b) + ']%N)'
@@ -181,38 +184,62 @@ def q(pair):
     return f'(({int(pair[0])}) # {int(pair[1])})'
 
 
-def obs_term(o):
-    """OBS -> Coq term, or raises ValueError if it cannot be represented (not a finite 0-d variable)"""
+def obs_term(o, utab):
+    """OBS -> Coq term, or raises ValueError if it cannot be represented (not a finite 0-d variable).
+    `utab`: {(multiplier, dims, dtype) as Coq text: constant name}; the few distinct triples of a run are
+    written once in the header (see Run.Corr.mkO)"""
     if o is None:
         return 'None'
-    if 'not_a_variable' in o or o.get('ndim') != 0 or not isinstance(o['value'], list):
+    if not isinstance(o, dict) or 'not_a_variable' in o or o.get('ndim') != 0 or not isinstance(o.get('value'), list):
         raise ValueError(f'not a finite scalar variable: {o}')
     var = o['variance']
     if var is not None and not isinstance(var, list):
         raise ValueError(f'variance not finite: {o}')
     vt = 'None' if var is None else f'(Some {q(var)})'
-    return (f'(Some (mkObs {q(o["value"])} {vt} {q(o["unit"]["mult"])} {kcorr.dims_term(o["unit"]["dims"])} '
-            f'"{o["dtype"]}"))')
+    if not re.fullmatch(r'[A-Za-z0-9_]+', str(o['dtype'])):
+        raise ValueError(f'unexpected dtype: {o}')
+    u = f'({q(o["unit"]["mult"])}, {kcorr.dims_term(o["unit"]["dims"])}, "{o["dtype"]}")'
+    name = utab.setdefault(u, f'uo{len(utab)}')
+    return f'(Some (mkO {q(o["value"])} {vt} {name}))'
 
 
-def case_term(name, res, is_ascii):
-    """one Coq term `L name ascii <scat obs> <atom obs> <elem obs>`"""
+def err_class(r):
+    """exception class name of an {'err': ...} observation (a Python identifier, checked)"""
+    c = r.get('err') if isinstance(r, dict) else None
+    if not isinstance(c, str) or not re.fullmatch(r'[A-Za-z_][A-Za-z0-9_.]*', c):
+        raise ValueError(f'neither a result nor an exception: {r!r}')
+    return c
+
+
+def case_term(name, res, is_ascii, utab):
+    """one Coq term `L name ascii <scat obs> <atom obs> <elem obs>`; ValueError when an observation cannot be
+    written down as data (the caller reports the name)"""
     a = 'true' if is_ascii else 'false'
-    r = res['scat']
+    r = res.get('scat')
+    if not isinstance(r, dict) or 'malformed' in r:
+        raise ValueError(f'ScatteringParams.for_isotope returned something unreadable: {r!r}')
     if 'ok' in r:
-        st = f'(SOk {cstr(r["ok"]["isotope"])} [' + '; '.join(obs_term(f) for f in r['ok']['fields']) + '])'
+        fs = r['ok']['fields']
+        st = f'(SOk {cstr(r["ok"]["isotope"])} [' + '; '.join(obs_term(f, utab) for f in fs) + '])'
     else:
-        st = 'sVE' if r['err'] == 'ValueError' else f'(SErr "{r["err"]}")'
-    r = res['atom']
+        c = err_class(r)
+        st = 'sVE' if c == 'ValueError' else f'(SErr "{c}")'
+    r = res.get('atom')
+    if not isinstance(r, dict) or 'malformed' in r:
+        raise ValueError(f'Atom.for_isotope returned something unreadable: {r!r}')
     if 'ok' in r:
         z = r['ok']['z']
         if not isinstance(z, int) or isinstance(z, bool):
             raise ValueError(f'z is not an int: {z!r}')
-        at = f'(AOk {cstr(r["ok"]["isotope"])} ({z})%Z {obs_term(r["ok"]["weight"])} {obs_term(r["ok"]["mass"])})'
+        at = (f'(AOk {cstr(r["ok"]["isotope"])} ({z})%Z {obs_term(r["ok"]["weight"], utab)} '
+              f'{obs_term(r["ok"]["mass"], utab)})')
     else:
-        at = {'ValueError': 'aVE', 'TypeError': 'aTE'}.get(r['err'], f'(AErr "{r["err"]}")')
+        c = err_class(r)
+        at = {'ValueError': 'aVE', 'TypeError': 'aTE'}.get(c, f'(AErr "{c}")')
     e = res.get('elem', {'unavailable': True})
-    if 'unavailable' in e or 'err' in e:
+    if not isinstance(e, dict) or 'group' not in e or not (e['group'] is None or isinstance(e['group'], str)):
+        # the private helper is missing, raised something else, or no longer returns the element symbol as a
+        # string (its interface changed): no direct comparison; Atom.for_isotope is compared in any case
         et = 'ESkip'
     else:
         et = 'eN' if e['group'] is None else f'(EGroup (Some {cstr(e["group"])}))'
@@ -237,18 +264,28 @@ LOOKUP_HEADER = ('From Coq Require Import QArith ZArith NArith String List.\n'
                  'Import ListNotations.\nOpen Scope string_scope.\n')
 
 
-def units_header(units):
+def units_header(units, utab):
     items = [f'("{u}", ({q(i["mult"])}, {kcorr.dims_term(i["dims"])}))' for u, i in units.items()]
-    return LOOKUP_HEADER + 'Definition UT : unit_table := [' + '; '.join(items) + '].\n'
+    consts = ''.join(f'Definition {n} : Q * dims * string := {u}.\n' for u, n in utab.items())
+    return LOOKUP_HEADER + 'Definition UT : unit_table := [' + '; '.join(items) + '].\n' + consts
 
 
 def describe_impl(r):
+    try:
+        return describe_impl_(r)
+    except Exception:       # an observation of unexpected shape: show it as it is
+        return r
+
+
+def describe_impl_(r):
     if r is None:
         return None
     if 'err' in r:
-        return 'raises ' + r['err'] + ': ' + r.get('text', '')
+        return 'raises ' + str(r['err']) + ': ' + str(r.get('text', ''))
     if 'group' in r:
         return {'element symbol': r['group']}
+    if 'ok' not in r:
+        return r
     o = r['ok']
 
     def show(x):
@@ -275,25 +312,36 @@ def lookup_correspondence(ctx, rng):
     n_type_error = 0
     counts = {}
     elem_unavailable = False
+    elem_other = None
+    utab = {}
     for i, (name, res) in enumerate(zip(names, results)):
         kind, origin = meta[name]
         is_ascii = all(ord(c) < 128 for c in name)
         try:
-            t = case_term(name, res, is_ascii)
-        except ValueError as ex:
+            t = case_term(name, res, is_ascii, utab)
+        except Exception as ex:      # whatever the package returned: report the name, go on with the others
             ctx.violation(f'lookup:{kind}:unrepresentable-result',
-                          f'lookup of {name!r} returned something that is not a finite scalar quantity: {ex}',
+                          f'lookup of {name!r} returned something that cannot be read as the documented result '
+                          f'(a string name, an int z, finite scalar quantities or None): {type(ex).__name__}: {ex}',
                           {'name': name, 'kind': kind, 'derived_from': origin, 'impl': res})
             continue
         terms.append(t)
         descs.append({'name': name, 'kind': kind, 'derived_from': origin, 'repeat': i >= len(order),
                       'impl': {api: describe_impl(res.get(api)) for api in ('scat', 'atom', 'elem')}})
-        if 'unavailable' in res.get('elem', {}):
+        e = res.get('elem', {})
+        if 'unavailable' in e:
             elem_unavailable = True
+        elif 'other' in e and elem_other is None:
+            elem_other = (name, e['other'])
         counts[kind] = counts.get(kind, 0) + 1
         if res.get('atom', {}).get('err') == 'TypeError':
             n_type_error += 1
-    fails, errors = ctx.coq_eval_shards(units_header(units), terms,
+    if elem_other:
+        elem_unavailable = True
+        ctx.note(f'_parse_isotope_name no longer returns the element symbol as a string (e.g. {elem_other[1]} for '
+                 f'{elem_other[0]!r}): the direct comparison of this private helper was skipped; Atom.for_isotope is '
+                 'compared for every name')
+    fails, errors = ctx.coq_eval_shards(units_header(units, utab), terms,
                                         lambda k: 'Eval vm_compute in (report (map (check_lookup UT) cases)).\n',
                                         shard=1000, prefix='lookup', timeout=1500)
     print(f'[C20] Coq compared {3 * len(terms)} lookup observations in {time.time() - t0:.1f}s (incl. implementation)')
@@ -317,13 +365,14 @@ def lookup_correspondence(ctx, rng):
                        'required': 'the fields of the table row whose first field is exactly the name '
                                    '(value == float(field), variance == float(std)**2, unit, None where blank); '
                                    'rejection (an exception) for any other name'})
-    if elem_unavailable:
+    if elem_unavailable and not elem_other:
         ctx.note('_parse_isotope_name is not available in this tree; its direct comparison was skipped')
     n_api = 2 if elem_unavailable else 3
     distinct = n_api * len({d['name'] for d in descs if not d['repeat']})
     n_rows = {t: len(tabs[t]) for t in tabs}
-    samples = [d for d in descs if d['kind'] == 'exact'][:2] + [d for d in descs if d['kind'] == 'prefix'][:1] \
-        + [d for d in descs if d['kind'] == 'comma'][:1] + [d for d in descs if d['kind'] == 'unicode'][:1]
+    samples = [d for d in descs if d['kind'] == 'exact'][:2]
+    for k in ('prefix', 'comma', 'unicode') + c20_names.CLASSES:
+        samples += [d for d in descs if d['kind'] == k][:1]
     return {
         'evaluations': n_api * len(terms), 'distinct': distinct, 'rows': n_rows, 'samples': samples,
         'names_per_kind': dict(sorted(counts.items())),
@@ -337,6 +386,23 @@ def lookup_correspondence(ctx, rng):
 INVVOL = [('1/angstrom^3', 1e30), ('1/m^3', 1.0), ('1/cm^3', 1e6), ('1/nm^3', 1e27)]
 AREA = [('barn', 1e-28), ('fm^2', 1e-30), ('m^2', 1.0), ('angstrom^2', 1e-20), ('cm^2', 1e-4), ('mm^2', 1e-6)]
 ORDER = ['n', 'ss', 'sa', 'wl']
+# wavelength units: "in any units" — those of kcorr (m, mm, km, angstrom, nm, cm) and the finer / odd ones
+WL_UNITS = kcorr.UNITS['length'] + [('pm', 1e-12), ('fm', 1e-15), ('um', 1e-6)]
+WL_FINE = [('angstrom', 1e-10), ('nm', 1e-9), ('pm', 1e-12), ('fm', 1e-15)]
+
+
+def wavelength_operand(rng, n, dim, dtype):
+    """thermal / cold neutron wavelengths (0.2 .. 30 angstrom) in any unit of length.  Integer dtypes: whole
+    numbers of a unit fine enough to hold them (angstrom, nm, pm, fm; rarely 1..3 um), NOT multiples of an
+    angstrom in general (150 pm, 17982 fm, ...)"""
+    si = [loguniform(rng, 2e-11, 3e-9) for _ in range(n)]
+    if dtype.startswith('int'):
+        if rng.random() < 0.06:
+            return {'values': [rng.randint(1, 3) for _ in si], 'unit': 'um', 'dtype': dtype, 'dim': dim}
+        name, mult = rng.choice(WL_FINE + [('pm', 1e-12), ('fm', 1e-15)])
+        return {'values': [max(1, int(round(v / mult))) for v in si], 'unit': name, 'dtype': dtype, 'dim': dim}
+    name, mult = rng.choice(WL_UNITS)
+    return {'values': [hexf(v / mult) for v in si], 'unit': name, 'dtype': dtype, 'dim': dim}
 
 
 def gen_atten_groups(rng, n_groups, tabs):
@@ -353,13 +419,15 @@ def gen_atten_groups(rng, n_groups, tabs):
             if single:
                 return 'float32' if first else rng.choice(['float32', 'float64'])
             return rng.choice(['float64', 'float64', 'float64', 'int64'])
+        # dtype of the wavelength: float64 / float32 / int64 / int32 (about a third of the groups integer)
+        wl_dtype = 'float32' if single else rng.choice(['float64', 'float64', 'float64', 'int64', 'int64', 'int32',
+                                                          'float32'])
         dim, n = (None, 1) if mode == 'scalar' else ('x', 5)
         ops = {
             'n': operand(rng, None, [loguniform(rng, 1e26, 1e30)], dtype=dt(), dim=None, unit=rng.choice(INVVOL)),
             'ss': operand(rng, None, [loguniform(rng, 1e-30, 1e-25)], dtype=dt(), dim=None, unit=rng.choice(AREA)),
             'sa': operand(rng, None, [loguniform(rng, 1e-31, 1e-24)], dtype=dt(), dim=None, unit=rng.choice(AREA)),
-            'wl': operand(rng, None, [loguniform(rng, 2e-11, 3e-9) for _ in range(n)], dtype=dt(True), dim=dim,
-                          unit=rng.choice(kcorr.UNITS['length'])),
+            'wl': wavelength_operand(rng, n, dim, wl_dtype),
         }
         if no_sa:
             ops['sa'] = None
@@ -388,13 +456,14 @@ def atten_correspondence(ctx, rng, n_groups):
         for t, d in kcorr.element_cases(g['kname'], order, g, r, tol):
             d['isotope'] = g['isotope']
             d['wavelength_is_array'] = bool(r['operands']['wl']['dims'])
+            d['wavelength_class'] = r['operands']['wl']['dtype'] + ' ' + r['operands']['wl']['unit']['name']
             terms.append(t)
             descs.append(d)
     header = ('From Coq Require Import QArith ZArith String List.\n'
               'From Verif.Sem Require Import Field Val QInst Corr.\nFrom Run Require Import Corr.\n'
               'Import ListNotations.\nOpen Scope string_scope.\n')
     fails, errors = ctx.coq_eval_shards(header, terms,
-                                        lambda k: 'Eval vm_compute in (report (map (check 1 1) cases)).\n',
+                                        lambda k: 'Eval vm_compute in (report (map check_both cases)).\n',
                                         prefix='atten')
     for nm, e in errors:
         ctx.violation('corr-shard-error', f'correspondence shard {nm} did not evaluate: {e[:300]}',
@@ -408,6 +477,18 @@ def atten_correspondence(ctx, rng, n_groups):
                           f'cross-sections of the nuclide carry an uncertainty (here {d["isotope"]!r}; 119 of the 339 rows with '
                           f'both cross-sections do); scalar wavelengths work: {d}', {'case': d, 'reason': why})
             continue
+        if why.startswith('law-'):
+            # the law itself (Run.Corr.check_law): the regenerated code agrees with the implementation but not with
+            # n (sigma_s + sigma_a lambda / 1.7982 angstrom)
+            wl = d['operands']['wl']
+            ctx.violation(f'{d["kernel"]}:{why.split(":")[0]}:wavelength-{wl["dtype"]}',
+                          f'Material.attenuation_coefficient({wl["value"]} {wl["unit"]}, {wl["dtype"]}) returned '
+                          f'{d["impl"]} which is not n*(sigma_s + sigma_a*lambda/1.7982 angstrom) in 1/length ({why}); '
+                          f'operands: {d["operands"]}',
+                          {'case': d, 'reason': why,
+                           'required': 'n*(sigma_s + sigma_a*lambda/(1.7982 angstrom)) in inverse length, to 1e-13 '
+                                       '(2e-6 with a float32 operand); integer operands are the integers they are'})
+            continue
         ctx.violation(f'{d["kernel"]}:{why.split(":")[0]}',
                       f'Material.attenuation_coefficient differs from n*(sigma_s + sigma_a*lambda/1.7982 angstrom) '
                       f'({why}) on {d}', {'case': d, 'reason': why})
@@ -415,8 +496,17 @@ def atten_correspondence(ctx, rng, n_groups):
         ctx.note(f'{mutated} attenuation groups had an operand modified by the call (C09 covers this)')
     nontrivial = len({repr(d['operands']) for d in descs if not isinstance(d['impl'], str)})
     rw = res.get('reference_wavelength')
+    classes = {}
+    for d in descs:
+        classes[d['wavelength_class']] = classes.get(d['wavelength_class'], 0) + 1
+    int_fine = [d for d in descs if d['wavelength_class'].startswith('int') and not isinstance(d['impl'], str)
+                and d['operands']['wl']['unit'] in ('pm', 'fm')]
     return {'evaluations': len(terms), 'distinct_nontrivial': nontrivial, 'disagreements': len(fails),
-            'samples': descs[:2], 'reference_wavelength': kcorr.describe(rw, 0) if rw else None}
+            'samples': descs[:2] + int_fine[:1], 'reference_wavelength': kcorr.describe(rw, 0) if rw else None,
+            'wavelength_dtype_unit_classes': dict(sorted(classes.items())),
+            'integer_wavelengths_in_pm_or_fm': len(int_fine),
+            'comparisons': 'each case twice inside Coq: against the regenerated function over Q (check) and against '
+                           'the closed law n(sigma_s + sigma_a lambda/1.7982 A) over Q (check_law)'}
 
 
 def correspondence(ctx):
@@ -428,8 +518,26 @@ def correspondence(ctx):
         ctx.coverage.update({'evaluations': 0, 'distinct_nontrivial': 0, 'exhaustive': False,
                              'rule': 'correspondence skipped: the run files did not compile', 'samples': []})
         return
-    lk = lookup_correspondence(ctx, rng)
-    at = atten_correspondence(ctx, rng, 150 if ctx.tier == 'quick' else 3000)
+    # neither part may end the run: a crash (an observation of a shape nobody foresaw) becomes a broken
+    # obligation, so that the driver runs search() on the implementation
+    empty = {'evaluations': 0, 'distinct': 0, 'distinct_nontrivial': 0, 'samples': [], 'disagreements': 0,
+             'type_error_rejections': 0, 'scipp_version': None}
+    try:
+        lk = lookup_correspondence(ctx, rng)
+    except Exception as ex:
+        import traceback
+        traceback.print_exc()
+        lk = dict(empty, crashed=f'{type(ex).__name__}: {ex}')
+        ctx.obligations.append(('correspondence:lookup', 'broken', f'the lookup correspondence crashed: {type(ex).__name__}: {ex}'[:500]))
+        ctx.broken.append('correspondence:lookup')
+    try:
+        at = atten_correspondence(ctx, rng, 200 if ctx.tier == 'quick' else 3000)
+    except Exception as ex:
+        import traceback
+        traceback.print_exc()
+        at = dict(empty, crashed=f'{type(ex).__name__}: {ex}')
+        ctx.obligations.append(('correspondence:attenuation', 'broken', f'the attenuation correspondence crashed: {type(ex).__name__}: {ex}'[:500]))
+        ctx.broken.append('correspondence:attenuation')
     if lk['type_error_rejections']:
         ctx.note(f'{lk["type_error_rejections"]} near-miss names without an element symbol were rejected by '
                  'Atom.for_isotope with TypeError (None[1]) rather than ValueError — a rejection; recorded, not flagged')
@@ -438,13 +546,23 @@ def correspondence(ctx):
         'distinct_nontrivial': lk['distinct'] + at['distinct_nontrivial'],
         'exhaustive': True,
         'rule': 'lookups: EVERY row of the three tables (first-column names of the current CSV files) and, for EVERY real '
-                'name, near misses (quick tier: all ~15 variants for scattering/element names, a seeded 5 of 15 per isotope-mass name; thorough: all) (prefix, drop-first, suffixes, case flips, leading/trailing blank/newline/tab, leading '
-                'zero, trailing comma, comma+field; a seeded sample with non-ASCII look-alikes) through Atom.for_isotope, '
-                'ScatteringParams.for_isotope and _parse_isotope_name, in shuffled order, plus repeated queries (lru_cache); '
+                'name, near misses: the fixed ones (prefix, drop-first, letter / digit suffix, case flips, leading/trailing '
+                'blank/newline/tab, leading zero, trailing comma, comma+field) and the classes of what may surround a valid '
+                'name (tools/harness/c20_names.py: digit(s) / blank kinds / punctuation and control characters / a tail '
+                'starting with a non-letter AFTER the name — "H2", "He3", "H\\t", "C+", "He-3", "U,1" —, blank / punctuation / '
+                'digit BEFORE it, mass number and symbol swapped or separated — "He3", "He-3", "3-He" —, a non-letter inside '
+                'the symbol — "H e"); quick tier: all fixed + the always-members + 1 seeded pool member of every class for '
+                'the scattering/element names, a seeded 5 fixed + 2 class variants per isotope-mass name; thorough: whole '
+                'pools for scattering/element names, fixed + always + 1 per class for isotope-mass names; a seeded sample '
+                'with non-ASCII look-alikes; through Atom.for_isotope, ScatteringParams.for_isotope and '
+                '_parse_isotope_name, in shuffled order, plus repeated queries (lru_cache); '
                 'distinct = distinct (api, name) pairs, all non-trivial (a table name returning data or a near miss that '
                 'must be rejected). attenuation: random densities/cross-sections/wavelengths over 3-5 decades in '
-                '4x6x6x6 units, float64/float32/int64, scalar and 1-d wavelengths, 30% bundled nuclides, 6% blank '
-                'absorption (None -> TypeError); non-trivial = the implementation returned a finite value.',
+                '4x6x6x9 units (wavelength: m, mm, km, cm, um, nm, angstrom, pm, fm), density/cross-sections '
+                'float64/float32/int64, wavelength float64/float32/int64/int32 (integers: whole numbers of angstrom, nm, '
+                'pm, fm, um — not multiples of an angstrom in general), scalar and 1-d wavelengths, 30% bundled nuclides, '
+                '6% blank absorption (None -> TypeError); every case compared in Coq with the regenerated function AND with '
+                'the closed law; non-trivial = the implementation returned a finite value.',
         'samples': lk['samples'] + at['samples'],
         'lookup': {k: v for k, v in lk.items() if k != 'samples'},
         'attenuation': {k: v for k, v in at.items() if k != 'samples'},
@@ -459,7 +577,26 @@ def search(ctx, broken):
     PROPERTY STATEMENT itself on the implementation (tools/harness/c20_search.py; no Coq model
     involved): every row verbatim, near misses rejected, z = position in the periodic table, the
     closed attenuation formula, and the diff of the tables against the pinned snapshot."""
-    res = ctx.run_impl('c20_search.py', {'snapshot': SNAPSHOT, 'seed': ctx.seed, 'broken': list(broken)})
+    base = {'snapshot': SNAPSHOT, 'seed': ctx.seed, 'broken': [str(b) for b in broken]}
+    # the near-miss sweep (every class of tools/harness/c20_names.py for every name: ~170 000 names x 2 entry
+    # points) is split over several processes; rows / attenuation / snapshot run in one more
+    nchunk = max(1, min(8, vlib.NCPU - 1))
+    jobs = [dict(base, steps=['rows', 'attenuation', 'snapshot_differences'])]
+    jobs += [dict(base, steps=['near_misses'], chunk=[i, nchunk]) for i in range(nchunk)]
+
+    def run(job):
+        try:
+            return ctx.run_impl('c20_search.py', job)
+        except Exception as ex:     # one part of the search failing must not hide what the others found
+            return {'failures': [{'key': 'search:process', 'what': f'search process {job.get("steps")} failed: {ex}',
+                                  'replay': None}], 'checked': {}}
+    with concurrent.futures.ThreadPoolExecutor(max_workers=len(jobs)) as ex:
+        parts = list(ex.map(run, jobs))
+    res = {'failures': [f for p in parts for f in p['failures']], 'checked': {}}
+    for p in parts:
+        for k, v in (p.get('checked') or {}).items():
+            old = res['checked'].get(k)
+            res['checked'][k] = v if old is None else (old + v if isinstance(old, int) and isinstance(v, int) else f'{old}; {v}')
     found = []
     for f in res['failures']:
         if f['key'].startswith('search:'):       # a search step itself crashed: not a failing input
@@ -495,9 +632,10 @@ def replay(ctx, obj):
         print('--- required:', rp.get('required', 'see "what" above'))
         return 0
     case = rp.get('case') if isinstance(rp, dict) else None
-    if case and 'operands' in case:
+    if case and ('operands' in case or 'wavelength' in case):
         print('re-run: Material(ScatteringParams(total_scattering_cross_section=ss, absorption_cross_section=sa), n)'
-              '.attenuation_coefficient(wl) with the operands above; required: n*(ss + sa*wl/(1.7982 angstrom))')
+              '.attenuation_coefficient(wl) with the operands above (values, unit and dtype as listed); required: '
+              'n*(ss + sa*wl/(1.7982 angstrom)) in inverse length')
     return 0
 
 
